@@ -61,6 +61,14 @@ checks = {
    text="Every single call, ordered pair (sequential and concurrent) and lifecycle-led triple (thorough: any third call, 4-call lifecycle sequences) from a 24-call menu of the public API (Bootstrap variants, Start/Restart/Stop, SubmitOperation of every type incl. an invalid one, nil/non-nil data, zero timeout, AddServer/RemoveServer incl. invalid ids and self, Status, Configuration, State/OperationType rendering) on a node in each of 9 base states (never started, follower, leader before/after first commit, pre-candidate, candidate, stopped, stopped-then-restarted, removed), followed by default cluster activity and an election timeout on every node; oracle: no panic in any goroutine, no process exit through the fatal path, every call returns, membership futures of changes that committed under the submitting leader resolved with the right configuration.",
    technique="exhaustive enumeration of bounded API call sequences over base states on the real code under the controlled scheduler",
    note="Canonical goroutine interleaving inside a step (schedule enumeration of API calls is in C20's scenarios); futures are polled, not awaited through the real select.", ref="4/C18"),
+ "C16": dict(level="model_checking", engine="cluster",
+   text="Timed cluster search (global clock in heartbeat intervals, election timeout 6, lease 2; prompt delivery unless a link is cut; staggered election timeouts, all three rotations): from a stable leader, and from the seed in which the minority node has been isolated for 10 intervals and is campaigning, every placement of symmetric / inbound-only / outbound-only isolation, heal, crash and restart of the minority node and of out-of-order deliveries of individual messages over a 16-36 interval horizon within the deviation bound; the leader must stay leader and the majority's term must not increase in any reached state.",
+   technique="explicit-state DFS over the real code with a global virtual clock (timed mode)",
+   note="Premise enforced by the alphabet (faults only on the minority node, majority links prompt). Trusted base as for the cluster engine plus the tick abstraction of time.", ref="4/C16"),
+ "C17": dict(level="model_checking", engine="cluster",
+   text="Timed cluster search with synchronised clocks and per-message delay of at most one interval (lease 2 + delay 1 < election timeout 6): lease reads at any node that believes it leads, writes, isolation/heal of any node, from a stable 3-voter leader, from the seed where the old leader has been cut off while a new leader exists, and from a 5-voter seed where the old leader keeps only one follower; a successful lease read must cover every write acknowledged before its invocation.",
+   technique="explicit-state DFS over the real code with a global virtual clock (timed mode), stale-read monitor",
+   note="Synchronised clocks on an integer tick grid; at most one outstanding read per node. Trusted base as for the cluster engine.", ref="4/C17"),
 }
 
 not_applicable = {}
